@@ -259,8 +259,39 @@ Definition is_blocked (b : list (nat * N)) (j : nat) : bool := existsb (fun p =>
 Fixpoint first_some {A} (f : nat -> option A) (js : list nat) : option A :=
   match js with [] => None | j :: r => match f j with Some a => Some a | None => first_some f r end end.
 
+(* What the replay may look at: the callbacks the log still holds, as (listener,
+   message).  The one place where the model's choice cannot be read off the past
+   of the log is a snapshot entry that is not a member of the listeners any more
+   (unregistered since the snapshot was taken): the real loop visits the snapshot
+   in an order of its own; it has dropped such an entry silently if it came to
+   it already, and has not if the entry is still ahead -- in which case a
+   registration of the same listener that comes in time makes it a member again,
+   and it is called ([Pick j l] with l a member: allowed by Bus.v at any time
+   while l is in the snapshot).  Nothing observable distinguishes the two until
+   that callback is logged.  The replay resolves the choice by that callback:
+     - the log still holds a callback (l, m): the entry stays (the skip, if any,
+       is a later [Pick] of the same run);
+     - it does not: the entry is dropped now ([Pick j l] with l not a member).
+   Either way the replay only ever applies [step] with an op that is [enabled]:
+   every accepted log is a run of the model (replay_ops below returns the op
+   list; props/C20.v: C20_replay_is_run).  Completeness: an entry that is never
+   called for m again is dropped by every run of the model that ends the
+   dispatch of m, and dropping it earlier changes nothing any other op looks at;
+   an entry that is called again must have stayed. *)
+Definition fut := list (N * N).
+
+Fixpoint future_recvs (evs : list ev) : fut :=
+  match evs with
+  | [] => []
+  | ERecv l _ m _ _ :: r => (l, m) :: future_recvs r
+  | _ :: r => future_recvs r
+  end.
+
+Definition in_fut (f : fut) (l m : N) : bool :=
+  existsb (fun p => N.eqb (fst p) l && N.eqb (snd p) m) f.
+
 (* one eager internal step, if any *)
-Definition eager (t : st) (b : list (nat * N)) : option op :=
+Definition eager (f : fut) (t : st) (b : list (nat * N)) : option op :=
   if enabled t Dispatch then Some Dispatch else
   match disp t with
   | Some (_, _, j :: _) => Some (Send j)
@@ -273,9 +304,10 @@ Definition eager (t : st) (b : list (nat * N)) : option op :=
         match nth_error (subs t) j with
         | Some x =>
             match infl x, cur x with
-            | Some (_, vis), None =>
-                (* snapshot entries that were unregistered meanwhile are skipped silently *)
-                match filter (fun l => negb (memb l (ls x))) vis with
+            | Some (m, vis), None =>
+                (* snapshot entries that were unregistered meanwhile are skipped silently,
+                   unless the log shows that they were still ahead when they came back *)
+                match filter (fun l => negb (memb l (ls x)) && negb (in_fut f l m)) vis with
                 | l :: _ => Some (Pick j l)
                 | [] => None
                 end
@@ -285,11 +317,17 @@ Definition eager (t : st) (b : list (nat * N)) : option op :=
         end) (seq 0 (List.length (subs t)))
   end.
 
-Fixpoint settle (fuel : nat) (t : st) (b : list (nat * N)) : st :=
+(* the eager steps, and the state they lead to *)
+Fixpoint settle_ops (fuel : nat) (f : fut) (t : st) (b : list (nat * N)) : list op * st :=
   match fuel with
-  | O => t
-  | S f => match eager t b with Some o => settle f (step t o) b | None => t end
+  | O => ([], t)
+  | S n => match eager f t b with
+           | Some o => let '(os, t') := settle_ops n f (step t o) b in (o :: os, t')
+           | None => ([], t)
+           end
   end.
+
+Definition settle (fuel : nat) (f : fut) (t : st) (b : list (nat * N)) : st := snd (settle_ops fuel f t b).
 
 Definition settle_fuel (t : st) : nat :=
   20 + 4 * List.length (q t) * (1 + List.length (subs t)) +
@@ -298,11 +336,13 @@ Definition settle_fuel (t : st) : nat :=
              0 (subs t) * 2 + 4 * List.length (subs t).
 
 (* a generous bound; the judge also checks that nothing is left to do *)
-Definition settled (t : st) (b : list (nat * N)) : st := settle (200 + 8 * settle_fuel t) t b.
+Definition settled_ops (f : fut) (t : st) (b : list (nat * N)) : list op * st :=
+  settle_ops (200 + 8 * settle_fuel t) f t b.
+Definition settled (f : fut) (t : st) (b : list (nat * N)) : st := snd (settled_ops f t b).
 
 (* quiescence of the implementation = nothing left to do in the model *)
-Definition quiescent (t : st) (b : list (nat * N)) : bool :=
-  match eager t b with Some _ => false | None => true end &&
+Definition quiescent (f : fut) (t : st) (b : list (nat * N)) : bool :=
+  match eager f t b with Some _ => false | None => true end &&
   forallb (fun j => is_blocked b j ||
                     match nth_error (subs t) j with
                     | Some x => match infl x with None => true | Some _ => false end
@@ -340,46 +380,74 @@ Definition find_pick (t : st) (b : list (nat * N)) (k l m : N) : option nat :=
     | None => None
     end) (seq 0 (List.length (subs t))).
 
-(* one logged event; None = the model cannot follow the implementation *)
-Definition replay_ev (tb : tgt_table) (r : rstate) (e : ev) : option rstate :=
-  let t := settled (r_st r) (r_blocked r) in
+(* one logged event, the events after it (only their callbacks are looked at);
+   None = the model cannot follow the implementation.  Besides the new state: the
+   ops of the model that were applied, in order. *)
+Definition replay_ev_ops (tb : tgt_table) (r : rstate) (e : ev) (rest : list ev) : option (list op * rstate) :=
   let b := r_blocked r in
+  (* the callbacks still to come, this event included *)
+  let f := future_recvs (e :: rest) in
+  let '(os, t) := settled_ops f (r_st r) b in
   match e with
   | ERecv l k m pl gated =>
       match find_pick t b k l m with
       | Some j =>
           let t' := step (step t (Pick j l)) (Call j) in
           if existsb (fun p => N.eqb (fst p) m && N.eqb (snd p) pl) (r_pl r)
-          then Some (mkR t' (if gated then (j, l) :: b else b) (r_pl r))
+          then Some (os ++ [Pick j l; Call j], mkR t' (if gated then (j, l) :: b else b) (r_pl r))
           else None
       | None => None
       end
   | _ =>
-      if negb (quiescent t b) then None else
+      if negb (quiescent f t b) then None else
       match e with
       | EPub ti m pl ok =>
           let o := Publish (tgt tb ti) m in
-          if Bool.eqb (res_ok (result t o)) ok then Some (mkR (step t o) b ((m, pl) :: r_pl r)) else None
+          if Bool.eqb (res_ok (result t o)) ok then Some (os ++ [o], mkR (step t o) b ((m, pl) :: r_pl r)) else None
       | EReg ti l ok =>
           let o := Register (tgt tb ti) l in
-          if Bool.eqb (res_ok (result t o)) ok then Some (mkR (step (step t o) RegFinish) b (r_pl r)) else None
-      | EUnreg ti l => Some (mkR (step t (Unregister (tgt tb ti) l)) b (r_pl r))
-      | ERelease l => Some (mkR t (filter (fun p => negb (N.eqb (snd p) l)) b) (r_pl r))
-      | EDigest d lb => if digest_ok tb t d lb then Some (mkR t b (r_pl r)) else None
+          if Bool.eqb (res_ok (result t o)) ok then Some (os ++ [o; RegFinish], mkR (step (step t o) RegFinish) b (r_pl r)) else None
+      | EUnreg ti l => let o := Unregister (tgt tb ti) l in Some (os ++ [o], mkR (step t o) b (r_pl r))
+      | ERelease l => Some (os, mkR t (filter (fun p => negb (N.eqb (snd p) l)) b) (r_pl r))
+      | EDigest d lb => if digest_ok tb t d lb then Some (os, mkR t b (r_pl r)) else None
       | _ => None
       end
   end.
 
+Definition replay_ev (tb : tgt_table) (r : rstate) (e : ev) (rest : list ev) : option rstate :=
+  option_map snd (replay_ev_ops tb r e rest).
+
 Fixpoint replay (tb : tgt_table) (i : N) (r : rstate) (evs : list ev) : option N :=
   match evs with
-  | [] => let t := settled (r_st r) (r_blocked r) in
-          if quiescent t (r_blocked r) then None else Some i
+  | [] => let t := settled [] (r_st r) (r_blocked r) in
+          if quiescent [] t (r_blocked r) then None else Some i
   | e :: rest =>
-      match replay_ev tb r e with
+      match replay_ev tb r e rest with
       | Some r' => replay tb (N.succ i) r' rest
       | None => Some i
       end
   end.
+
+(* the same, returning the run of the model that follows the log (None = it cannot) *)
+Fixpoint replay_ops (tb : tgt_table) (r : rstate) (evs : list ev) : option (list op * st) :=
+  match evs with
+  | [] => let '(os, t) := settled_ops [] (r_st r) (r_blocked r) in
+          if quiescent [] t (r_blocked r) then Some (os, t) else None
+  | e :: rest =>
+      match replay_ev_ops tb r e rest with
+      | Some (os, r') =>
+          match replay_ops tb r' rest with
+          | Some (os', t) => Some (os ++ os', t)
+          | None => None
+          end
+      | None => None
+      end
+  end.
+
+(* the callbacks of a log, as the model records them; the subscriber is what the
+   log does not show *)
+Definition logged_callbacks (evs : list ev) : list (lid * msg) := future_recvs evs.
+Definition model_callbacks (t : st) : list (lid * msg) := map (fun c => (snd (fst c), snd c)) (dlog t).
 
 (* ======================================================================== *)
 (* cases                                                                      *)
